@@ -44,6 +44,12 @@ type Use struct {
 	Probe   bool // inside the start-up query batch (before the DA1 query)
 }
 
+type savedCursor struct {
+	r, c  int
+	pen   Style
+	valid bool
+}
+
 // Placement is one graphics placement the terminal currently shows.
 type GraphicsEvent struct {
 	Kind string // "kitty-transmit", "kitty-place", "kitty-delete", "sixel"
@@ -71,6 +77,7 @@ type Term struct {
 	savedC      int
 	savedPen    Style
 	saved       bool
+	altSaved    savedCursor // DECSC slot of the alternate screen
 	Pen         Style
 	top, bot    int // scroll region, inclusive, 0-based
 
@@ -490,15 +497,9 @@ func (t *Term) esc(it Item) {
 	if len(it.Inter) == 0 {
 		switch it.Final {
 		case '7':
-			t.savedR, t.savedC, t.savedPen, t.saved = t.R, t.C, t.Pen, true
+			t.decsc()
 		case '8':
-			if t.saved {
-				t.R, t.C, t.Pen = t.savedR, t.savedC, t.savedPen
-			} else {
-				t.R, t.C = 0, 0
-			}
-			t.clampCursor()
-			t.pendingWrap = false
+			t.decrc()
 		case '=':
 			t.KeypadApp = true
 		case '>':
@@ -522,6 +523,31 @@ func (t *Term) esc(it Item) {
 		return // character set designation: ignored
 	}
 	t.Unknown = append(t.Unknown, itemString(it))
+}
+
+// decsc / decrc: each screen has its own saved-cursor slot (xterm). With
+// nothing saved DECRC homes the cursor and resets the rendition (VT510).
+func (t *Term) decsc() {
+	if t.onAlt {
+		t.altSaved = savedCursor{t.R, t.C, t.Pen, true}
+		return
+	}
+	t.savedR, t.savedC, t.savedPen, t.saved = t.R, t.C, t.Pen, true
+}
+
+func (t *Term) decrc() {
+	link, lp := t.Pen.LinkURI, t.Pen.LinkParams
+	switch {
+	case t.onAlt && t.altSaved.valid:
+		t.R, t.C, t.Pen = t.altSaved.r, t.altSaved.c, t.altSaved.pen
+	case !t.onAlt && t.saved:
+		t.R, t.C, t.Pen = t.savedR, t.savedC, t.savedPen
+	default:
+		t.R, t.C, t.Pen = 0, 0, Style{}
+	}
+	t.Pen.LinkURI, t.Pen.LinkParams = link, lp
+	t.clampCursor()
+	t.pendingWrap = false
 }
 
 func (t *Term) fullReset() {
@@ -758,13 +784,9 @@ func (t *Term) csi(it Item) {
 				}
 			}
 		case 's':
-			t.savedR, t.savedC, t.savedPen, t.saved = t.R, t.C, t.Pen, true
+			t.decsc()
 		case 'u':
-			if t.saved {
-				t.R, t.C = t.savedR, t.savedC
-				t.clampCursor()
-			}
-			t.pendingWrap = false
+			t.decrc()
 		default:
 			t.Unknown = append(t.Unknown, itemString(it))
 		}
@@ -969,14 +991,15 @@ func (t *Term) decMode(m int, set bool, seq string) {
 		t.switchScreen(set, false)
 	case 1049:
 		if set {
-			t.savedR, t.savedC, t.savedPen, t.saved = t.R, t.C, t.Pen, true
+			if !t.onAlt {
+				t.savedR, t.savedC, t.savedPen, t.saved = t.R, t.C, t.Pen, true
+			} else {
+				t.altSaved = savedCursor{t.R, t.C, t.Pen, true}
+			}
 			t.switchScreen(true, true)
 		} else {
 			t.switchScreen(false, false)
-			if t.saved {
-				t.R, t.C, t.Pen = t.savedR, t.savedC, t.savedPen
-				t.clampCursor()
-			}
+			t.decrc()
 		}
 		t.Modes[1049] = set
 	case 2026:
@@ -1011,16 +1034,23 @@ func (t *Term) InBandReport() string {
 	return fmt.Sprintf("\x1b[48;%d;%d;%d;%dt", t.Rows, t.Cols, t.Rows*t.CellH, t.Cols*t.CellW)
 }
 
+func (t *Term) clearAlt() {
+	t.alt = newScreen(t.Rows, t.Cols)
+	for r := range t.alt.Cells {
+		t.alt.Cells[r] = blankRow(t.Cols, t.Pen) // erased with the current background
+	}
+}
+
 func (t *Term) switchScreen(toAlt, clear bool) {
 	if toAlt == t.onAlt {
 		if toAlt && clear {
-			t.alt = newScreen(t.Rows, t.Cols)
+			t.clearAlt()
 		}
 		return
 	}
 	t.onAlt = toAlt
 	if toAlt && clear {
-		t.alt = newScreen(t.Rows, t.Cols)
+		t.clearAlt()
 	}
 	t.pendingWrap = false
 	t.lastPrintValid = false
